@@ -1,7 +1,7 @@
 """SQLAlchemy side of the host: declarative models and their Tables.
 
 Author(id, name) 1-* Post(id, title, rating, author_id NULL) 1-* Comment(id, body,
-post_id, writer_id NULL).  ``Comment.writer -> Author`` is, on purpose, a relationship
+post_id, writer_id NULL, reviewer_id NULL).  ``Comment.writer -> Author`` is, on purpose, a relationship
 whose key differs from the related table's name.
 """
 from sqlalchemy import Column, ForeignKey, Integer, String
@@ -15,7 +15,10 @@ class Author(Base):
     id = Column(Integer, primary_key=True)
     name = Column(String, nullable=False)
     posts = relationship("Post", back_populates="author")
-    written = relationship("Comment", back_populates="writer")
+    written = relationship("Comment", back_populates="writer",
+                           foreign_keys="Comment.writer_id")
+    reviewed = relationship("Comment", back_populates="reviewer",
+                            foreign_keys="Comment.reviewer_id")
 
 
 class Post(Base):
@@ -34,8 +37,11 @@ class Comment(Base):
     body = Column(String, nullable=False)
     post_id = Column(Integer, ForeignKey("post.id"), nullable=False)
     writer_id = Column(Integer, ForeignKey("author.id"), nullable=True)
+    reviewer_id = Column(Integer, ForeignKey("author.id"), nullable=True)
     post = relationship("Post", back_populates="comments")
-    writer = relationship("Author", back_populates="written")
+    writer = relationship("Author", back_populates="written", foreign_keys=[writer_id])
+    # a second relationship to the same target: hosts join it through an alias
+    reviewer = relationship("Author", back_populates="reviewed", foreign_keys=[reviewer_id])
 
 
 MODELS = {"Author": Author, "Post": Post, "Comment": Comment}
